@@ -145,7 +145,8 @@ fn content_case(l: u32, i: u64) -> Vec<Case> {
     let s = nth_str(&SIGMA_TXT, l, i);
     let mut out = vec![];
     // <a k="S">S</a>
-    let mut e = A::el("", "a").attr("", "k", &s);
+    // the same value under a plain name, under a name that merely looks like xml:id, and under a namespaced "id"
+    let mut e = A::el("", "a").decl("p", X).attr("", "k", &s).attr("", "id", &s).attr(X, "id", &s);
     if !s.is_empty() {
         e = e.child(A::text(&s));
     }
@@ -357,7 +358,7 @@ pub fn run(tier: Tier) -> i32 {
         return 2;
     }
     let cov = json!({
-        "rule": format!("(a) every string of length <= {} over {{a, space, TAB, LF, CR, <, &, >, \", ', ], U+10000, U+0085, U+2028}} as attribute value and text of <a k=S>S</a> and as text of fragment S<a/>S; (b) every document / fragment with <= {} ordinary nodes over 4 element prototypes, text, comment, PI with/without data, no adjacent text{}; (c) every serialisable namespace layout of 1-3 elements (540 specs per element; 3-element layouts over a reduced menu); (d) namespace URIs of length <= 2 over 10 symbols; (e) every comment / PI body of length <= {} over {{a - ? > < & space LF TAB ] ! U+0085}} that is free of its own terminator, at top level and inside an element; (f) every pair of 14 NCNames (ASCII with - . _ digits, Latin-1, Greek, CJK, U+10000, combining and middle-dot name characters, xml-prefixed) as element, attribute, prefix and PI target names; each tree round-tripped as built by the creation API, as re-parsed, and as assembled by moving subtrees; distinct = distinct canonical trees", l, 5, tier.pick("", "; plus every document with 6 nodes over 2 element prototypes"), bl),
+        "rule": format!("(a) every string of length <= {} over {{a, space, TAB, LF, CR, <, &, >, \", ', ], U+10000, U+0085, U+2028}} as attribute value (of k, id and p:id) and text of <a k=S id=S p:id=S>S</a> and as text of fragment S<a/>S; (b) every document / fragment with <= {} ordinary nodes over 4 element prototypes, text, comment, PI with/without data, no adjacent text{}; (c) every serialisable namespace layout of 1-3 elements (540 specs per element; 3-element layouts over a reduced menu); (d) namespace URIs of length <= 2 over 10 symbols; (e) every comment / PI body of length <= {} over {{a - ? > < & space LF TAB ] ! U+0085}} that is free of its own terminator, at top level and inside an element; (f) every pair of 14 NCNames (ASCII with - . _ digits, Latin-1, Greek, CJK, U+10000, combining and middle-dot name characters, xml-prefixed) as element, attribute, prefix and PI target names; each tree round-tripped as built by the creation API, as re-parsed, and as assembled by moving subtrees; distinct = distinct canonical trees", l, 5, tier.pick("", "; plus every document with 6 nodes over 2 element prototypes"), bl),
         "bounds": {"string_len": l, "max_nodes": tier.pick(5, 6), "layout_total": lt, "uri_len": 2},
     });
     ctx.finish(stats, cov, vec![])
